@@ -192,6 +192,17 @@ func eofDrainRule(c *Ctx, r *Report, rule string) {
 		r.Check(rule, fnName(fn), "return io.EOF", c.pos(ret.Pos()), empty,
 			"dominated by d.state.buf.Len() == 0: the tail of a match held back for a small buffer is delivered first", "io.EOF can be returned while decoded bytes are still held back (the tail of a final match that did not fit the previous buffer): the stream ends up to 59 bytes early and Close reports a checksum error on a valid stream")
 	}
+	// ip_j3.go: io.EOF that reaches Read's error result from a same-package helper (or through a merge)
+	for _, ret := range returnsOf(fn) {
+		if ld, ok := resOf(ret, 1).(*ssa.UnOp); ok && strings.HasSuffix(pathOf(ld), "io.EOF") {
+			continue
+		}
+		for _, site := range j3EOFSources(ret.Results[1], ret.Block(), nil, nil, fn, false, 0, map[ssa.Value]bool{}) {
+			n++
+			r.Check(rule, fnName(fn), "return io.EOF", c.pos(site.pos), site.guarded,
+				"the io.EOF handed to Read here is produced only where d.state.buf.Len() == 0 holds: the tail of a match held back for a small buffer is delivered first", "io.EOF can be returned while decoded bytes are still held back (the tail of a final match that did not fit the previous buffer): the stream ends up to 59 bytes early and Close reports a checksum error on a valid stream")
+		}
+	}
 	if n == 0 {
 		r.Add(rule, fnName(fn), "return io.EOF", c.pos(fn.Pos())).Bad("Read never reports io.EOF")
 	}
@@ -576,6 +587,13 @@ func lengthAgreeRule(c *Ctx, r *Report, rule string) {
 				}
 			}
 		}
+	}
+	if !clamped && announced != nil {
+		// ip_j3.go: the same fact by reaching definitions (min builtin, clamp helper, any spelling of the test)
+		clamped = c.j3Clamped(announced, at, func(v ssa.Value) bool {
+			ld, ok := v.(*ssa.UnOp)
+			return ok && ld.Op == token.MUL && strings.HasSuffix(pathOf(ld), ".len")
+		})
 	}
 	if clamped {
 		o.OK("limited to w.len before it is announced")
